@@ -124,7 +124,7 @@ def DelIter (body : HUid → PUnit → M (ForInStep PUnit)) (f : FUid) (cfg : Fl
       FlowAt s1 f { i with heads := i.heads.filter (·.uid ≠ u) } x1 cfg ∧ x1.ctxOwner = x.ctxOwner ∧ x1.flowId = x.flowId ∧
       (∀ k, k ≠ (f, u) → reg s1.ixs.ix k = reg s.ixs.ix k) ∧ s1.r.nextUid = s.r.nextUid ∧
       x1.forkUids = OMap.erase u x.forkUids ∧ (∀ k, k ≠ (f, u) → OMap.lookup k s1.r.hx = OMap.lookup k s.r.hx) ∧
-      s1.r.cleared = s.r.cleared
+      s1.r.cleared = s.r.cleared ∧ s1.r.queue = s.r.queue
 
 theorem delLoop_spec (body : HUid → PUnit → M (ForInStep PUnit)) (f : FUid) (cfg : FlowCfg) (hiter : DelIter body f cfg) :
     ∀ (cs : List HUid) (s : VM) (i : Inst) (x : InstX), cs.Nodup → FlowAt s f i x cfg →
@@ -133,19 +133,20 @@ theorem delLoop_spec (body : HUid → PUnit → M (ForInStep PUnit)) (f : FUid) 
         FlowAt s' f { i with heads := i.heads.filter fun o => !cs.contains o.uid } x' cfg ∧
         x'.ctxOwner = x.ctxOwner ∧ x'.flowId = x.flowId ∧ s'.r.nextUid = s.r.nextUid ∧
         x'.forkUids = cs.foldl (fun m c => OMap.erase c m) x.forkUids ∧
-        (∀ k, (∀ c ∈ cs, k ≠ (f, c)) → OMap.lookup k s'.r.hx = OMap.lookup k s.r.hx) ∧ s'.r.cleared = s.r.cleared := by
+        (∀ k, (∀ c ∈ cs, k ≠ (f, c)) → OMap.lookup k s'.r.hx = OMap.lookup k s.r.hx) ∧ s'.r.cleared = s.r.cleared ∧
+        s'.r.queue = s.r.queue := by
   intro cs
   induction cs with
   | nil =>
     intro s i x _ F _
-    refine ⟨s, x, rfl, ?_, rfl, rfl, rfl, rfl, fun _ _ => rfl, rfl⟩
+    refine ⟨s, x, rfl, ?_, rfl, rfl, rfl, rfl, fun _ _ => rfl, rfl, rfl⟩
     have : ({ i with heads := i.heads.filter fun o => !([] : List HUid).contains o.uid } : Inst) = i := by
       cases i; simp
     rw [this]; exact F
   | cons u cs ih =>
     intro s i x hnd F hall
     obtain ⟨cd, hcd, hreg⟩ := hall u (by simp)
-    obtain ⟨s1, x1, hb, F1, ho1, hf1, hreg1, hn1, hfu1, hhx1, hcl1⟩ := hiter u s i x cd F hcd hreg
+    obtain ⟨s1, x1, hb, F1, ho1, hf1, hreg1, hn1, hfu1, hhx1, hcl1, hq1⟩ := hiter u s i x cd F hcd hreg
     have hnd' := List.nodup_cons.1 hnd
     have hall1 : ∀ c ∈ cs, ∃ cd, ({ i with heads := i.heads.filter (·.uid ≠ u) } : Inst).findHead c = some cd ∧
         (cd.status = .inactive → reg s1.ixs.ix (f, c) = none) := by
@@ -155,9 +156,9 @@ theorem delLoop_spec (body : HUid → PUnit → M (ForInStep PUnit)) (f : FUid) 
       refine ⟨cd', by rw [findHead_filter]; simp [hcu, hcd'], fun hin => ?_⟩
       rw [hreg1 (f, c) (by simp [hcu])]
       exact hreg' hin
-    obtain ⟨s', x', hrun, F', ho', hf', hn', hfu', hhx', hcl'⟩ := ih s1 _ x1 hnd'.2 F1 hall1
+    obtain ⟨s', x', hrun, F', ho', hf', hn', hfu', hhx', hcl', hq'⟩ := ih s1 _ x1 hnd'.2 F1 hall1
     refine ⟨s', x', ?_, ?_, by rw [ho', ho1], by rw [hf', hf1], by rw [hn', hn1], by rw [hfu', hfu1]; rfl,
-      fun k hk => by rw [hhx' k (fun c hc => hk c (by simp [hc])), hhx1 k (hk u (by simp))], by rw [hcl', hcl1]⟩
+      fun k hk => by rw [hhx' k (fun c hc => hk c (by simp [hc])), hhx1 k (hk u (by simp))], by rw [hcl', hcl1], by rw [hq', hq1]⟩
     · simp only [List.forIn_cons, bind, EStateM.bind, hb, hrun]
     · have : ({ i with heads := i.heads.filter fun o => !(u :: cs).contains o.uid } : Inst)
           = { ({ i with heads := i.heads.filter (·.uid ≠ u) } : Inst) with
@@ -290,7 +291,8 @@ theorem slideStep_merge_merging (fuel : Nat) (s : VM) (f : FUid) (h : HUid) (i :
     ∃ s' i' x', slideStep (fuel + 2) f h s = .ok (false, [(f, r)]) s' ∧ FlowAt s' f i' x' cfg ∧ x'.ctxOwner = x.ctxOwner ∧
       hview i' = ((hview i).map (setCore r hd.pos .active)).filter (fun t => !cs.contains t.1) ∧
       s'.r.nextUid = s.r.nextUid ∧ i'.status = i.status ∧ s'.r.cleared = s.r.cleared ∧
-      ∃ y', OMap.lookup (f, r) s'.r.hx = some y' ∧ y'.catchLabels = ((OMap.lookup (f, h) s.r.hx).getD {}).catchLabels := by
+      (∃ y', OMap.lookup (f, r) s'.r.hx = some y' ∧ y'.catchLabels = ((OMap.lookup (f, h) s.r.hx).getD {}).catchLabels) ∧
+      s'.r.queue = s.r.queue := by
   have hge : decide (hd.pos ≥ cfg.elements.size) = false := by simp; exact H.hlt
   unfold slideStep
   simp only [bind, EStateM.bind, cfgOfInst, getInstX, getInstX?, getRest, get, getThe, MonadStateOf.get, EStateM.get, pure, EStateM.pure,
@@ -397,7 +399,7 @@ theorem slideStep_merge_merging (fuel : Nat) (s : VM) (f : FUid) (h : HUid) (i :
       rw [applyOp_ok _ t hgd]
       simp only [modInstX, modifyRest, modify, modifyGet, MonadStateOf.modifyGet, EStateM.modifyGet]
       refine ⟨_, { xt with forkUids := OMap.erase c xt.forkUids }, rfl, ?_, rfl, rfl, ?_, rfl, rfl,
-        fun k hk => by simp only [OMap.lookup_erase, hk, if_false], rfl⟩
+        fun k hk => by simp only [OMap.lookup_erase, hk, if_false], rfl, rfl⟩
       · exact { hi := findInst_delHead t.ixs.ix f c it Ft.hi, hx := lookup_modify_self f _ t.r.fx xt Ft.hx, hc := Ft.hc }
       · intro k _; rfl
     · obtain ⟨hgs, hss⟩ := setHeadStatus_inactive_ok t f c it cd Ft.hi hcd hin
@@ -411,7 +413,7 @@ theorem slideStep_merge_merging (fuel : Nat) (s : VM) (f : FUid) (h : HUid) (i :
       rw [applyOp_ok _ _ hgd]
       simp only [modInstX, modifyRest, modify, modifyGet, MonadStateOf.modifyGet, EStateM.modifyGet]
       refine ⟨_, { xt with forkUids := OMap.erase c xt.forkUids }, rfl, ?_, rfl, rfl, ?_, rfl, rfl,
-        fun k hk => by simp only [OMap.lookup_erase, hk, if_false], rfl⟩
+        fun k hk => by simp only [OMap.lookup_erase, hk, if_false], rfl, rfl⟩
       · refine { hi := ?_, hx := lookup_modify_self f _ t.r.fx xt Ft.hx, hc := Ft.hc }
         have := findInst_delHead _ f c _ his
         rw [filter_modifyHead it c (fun y => { y with status := HeadStatus.inactive, elem := none }) (fun _ => rfl)] at this
@@ -427,6 +429,7 @@ theorem slideStep_merge_merging (fuel : Nat) (s : VM) (f : FUid) (h : HUid) (i :
   have e3 : s11.r.prog = s.r.prog := by rw [← hs11]
   have e4 : s11.r.nextUid = s.r.nextUid := by rw [← hs11]
   have e5 : s11.r.cleared = s.r.cleared := by rw [← hs11]
+  have e7 : s11.r.queue = s.r.queue := by rw [← hs11]
   have e6 : ∃ y', OMap.lookup (f, r) s11.r.hx = some y' ∧ y'.catchLabels = ((OMap.lookup (f, h) s.r.hx).getD {}).catchLabels := by
     rw [← hs11]
     simp only [OMap.lookup_modify, if_true]
@@ -453,14 +456,14 @@ theorem slideStep_merge_merging (fuel : Nat) (s : VM) (f : FUid) (h : HUid) (i :
     · obtain ⟨cd, hcd⟩ := hex c hc
       rw [findHead_other i h c (fun y => { y with status := HeadStatus.inactive, elem := none }) (fun _ => rfl) hch]
       exact ⟨cd, hcd, fun hin => absurd hin (hact c hc cd hcd hch)⟩
-  obtain ⟨s12, x12, hrun, F12, ho12, hf12, hn12, hfu12, hhx12, hcl12⟩ := delLoop_spec body f cfg hiter cs s11 _ x hnd F11 hchildren
+  obtain ⟨s12, x12, hrun, F12, ho12, hf12, hn12, hfu12, hhx12, hcl12, hq12⟩ := delLoop_spec body f cfg hiter cs s11 _ x hnd F11 hchildren
   rw [hrun]
   have hlk : OMap.lookup u x12.forkUids = some r := by rw [hfu12, lookup_eraseAll u cs _ hucs]; exact hfu
   simp only [getInstX, getInstX?, getRest, bind, EStateM.bind, get, getThe, MonadStateOf.get, EStateM.get, pure, EStateM.pure, F12.hx, hlk,
     Option.isNone_some, Bool.false_eq_true, if_false, modInstX, modifyRest, modify, modifyGet, MonadStateOf.modifyGet, EStateM.modifyGet]
   refine ⟨_, _, { x12 with forkUids := OMap.erase u x12.forkUids }, rfl,
     { hi := F12.hi, hx := lookup_modify_self f _ s12.r.fx x12 F12.hx, hc := F12.hc }, ho12, ?_, by rw [← e4]; exact hn12, rfl,
-    by rw [← e5]; exact hcl12, ?_⟩
+    by rw [← e5]; exact hcl12, ?_, by rw [← e7]; exact hq12⟩
   rotate_left
   · obtain ⟨y', hy1, hy2⟩ := e6
     refine ⟨y', ?_, hy2⟩
@@ -546,7 +549,8 @@ theorem and_clause_completes (fuel : Nat) (s : VM) (f : FUid) (i : Inst) (x : In
     (hmu : mu ∉ us.map (·.1)) (hfp : fp ≠ pe + 2) :
     ∃ s' i' x', slide (fuel + 4) f uj.1 s = .ok [(f, r)] s' ∧ FlowAt s' f i' x' cfg ∧ x'.ctxOwner = x.ctxOwner ∧
       hview i' = [(r, pe + 2, HeadStatus.active)] ∧ s'.r.nextUid = s.r.nextUid ∧ i'.status = i.status ∧ s'.r.cleared = s.r.cleared ∧
-      ∃ y', OMap.lookup (f, r) s'.r.hx = some y' ∧ y'.catchLabels = ((OMap.lookup (f, uj.1) s.r.hx).getD {}).catchLabels := by
+      (∃ y', OMap.lookup (f, r) s'.r.hx = some y' ∧ y'.catchLabels = ((OMap.lookup (f, uj.1) s.r.hx).getD {}).catchLabels) ∧
+      s'.r.queue = s.r.queue := by
   have hndv : ((hview i).map (·.1)).Nodup := by
     rw [hv, List.map_cons, renderU_fst _ _ _ hlen]; exact hndu
   -- the merging head and the forking head
